@@ -86,9 +86,13 @@ func genHistory(r *hxlib.Run, emit func(hxlib.Case), backend string, shadow bool
 		case x < 50:
 			lines = append(lines, "exists p "+pick(r, keys))
 			r.Count("op:exists")
-		case x < 58:
+		case x < 56:
 			lines = append(lines, "del p "+pick(r, keys))
 			r.Count("op:delete")
+		case x < 58:
+			lines = append(lines, "reput p "+pick(r, keys))
+			wrote = true
+			r.Count("op:get-then-put-back")
 		case x < 62:
 			if findingMode {
 				continue
@@ -248,7 +252,7 @@ func genIterator(r *hxlib.Run, emit func(hxlib.Case)) {
 // (it commits after every 1000 changes and re-seeks), with cursor deletes (immediate) and cursor rewrites (shadow).
 func genBigPurge(r *hxlib.Run, emit func(hxlib.Case)) {
 	for _, sh := range []string{"0", "1"} {
-		n := 1000 + r.Rng.Intn(r.Budget(400, 2500))
+		n := 2400 + r.Rng.Intn(r.Budget(400, 4000)) // ≥ 1400 records match the first purge: at least two transactions
 		lines := []string{"cfg b " + sh, "if p 1 1 n 0 0 0 0", "pmbegin p"}
 		for i := 0; i < n; i++ {
 			pfx := "big/"
@@ -267,7 +271,12 @@ func genBigPurge(r *hxlib.Run, emit func(hxlib.Case)) {
 	}
 }
 
-func generate(r *hxlib.Run, emit func(hxlib.Case)) {
+func generate(r *hxlib.Run, emit0 func(hxlib.Case)) {
+	emit := func(c hxlib.Case) {
+		if !dbx.Hung() {
+			emit0(c)
+		}
+	}
 	st := &dbx.CondStats{}
 	regression(emit)
 	genIterator(r, emit)
